@@ -46,6 +46,7 @@ fn main() {
             perturb_max_us: *rng.pick(&[1u64, 50, 300]),
             seed: rng.next_u64(),
             checkpoints_at: (0..nck).map(|_| rng.below(n)).collect(),
+            stable_ms: 120,
         };
         rep.eval();
         let out = run_contexts(&p, &events, &cfg);
